@@ -516,6 +516,37 @@ def run(case, res):
             else:
                 res.probes.hit('short_expected_list_accepted')
             trip2 = None
+    # ---- a batch whose input lists are of unequal length, the shortest listed first: refused ----
+    if ncyc >= 2 and case.get('short_expected') is not None and tape[0] and len(tape[0]) >= 2:
+        try:
+            trip3 = replica.make_sim(kind, live, init, tracer='all')
+        except Exception:
+            trip3 = None
+        if trip3 is not None:
+            nst = min(ncyc, 4)
+            names = sorted(tape[0])
+            first = names[case['short_expected'] % len(names)]
+            keep = 1 + case['short_expected'] % (nst - 1)
+            cols = {first: [tape[j][first] for j in range(keep)]}
+            for n in names:
+                if n != first:
+                    cols[n] = [tape[j][n] for j in range(nst)]
+            try:
+                trip3.step_multiple(cols, file=io.StringIO())
+            except pyrtl.PyrtlError:
+                res.faults.hit('batch_refused_for_unequal_input_lists')
+                if world.tracelen(trip3) != 0:
+                    return Violation('step_multiple', 'steps_taken_by_a_refused_batch',
+                                     {'trace_len': world.tracelen(trip3), 'given': keep,
+                                      'steps_asked': nst}, [kind, 'unequal_inputs'])
+            except Exception as e:
+                if not is_planted(e):
+                    raise
+            else:
+                return Violation('step_multiple', 'unequal_input_lists_accepted',
+                                 {'first_listed': first, 'its_values': keep, 'others': nst,
+                                  'steps_taken': world.tracelen(trip3)}, [kind])
+            trip3 = None
     # ---- writer fault: the file object fails on its k-th write; the trace is only read ----
     if case.get('writer_fault') is not None:
         before = {n: list(vs) for n, vs in sim.tracer.trace.items()}
